@@ -163,8 +163,8 @@ def pixel2point(pixels, depth, intrinsics):
     assert not torch.any(fy == 0), "fy Cannot contain zero"
 
     pts3d_z = depth
-    pts3d_x = ((pixels[..., 0] - cx) * pts3d_z) / fx
     pts3d_y = ((pixels[..., 1] - cy) * pts3d_z) / fy
+    pts3d_x = ((pixels[..., 0] - cx) * pts3d_z - intrinsics[..., 0, 1] * pts3d_y) / fx
     return torch.stack([pts3d_x, pts3d_y, pts3d_z], dim=-1)
 
 
